@@ -567,4 +567,135 @@ theorem p2f_connSpec (hS : Static c w addrs own') (hgN : GoodChain c.node.chain)
 
 end floor
 
+-- ------------------------------------------------------------------ phase 2 with a floor, the events
+
+/-- **phase 2 with a floor** `fl`: `Phase2` whose ghost height is ≤ `fl`, the chain reaching above `fl` -/
+def Phase2F (c : Ctx) (w : Wid) (addrs : List Addr) (own' : Own) (G : Block) (fl : Nat) (x : ISt) : Prop :=
+  ∃ g k, k ≤ fl ∧ fl < x.node.chain.length ∧ GhostOK c w x.node g k ∧ SubG addrs g x.s ∧
+    MidC { c with node := x.node } w addrs own' x.s x.node.chain
+      (joinBookK { c with node := x.node } w own' x.node.chain k) ∧
+    ChainFacts c G x
+
+section events
+variable {limit : Nat} {c : Ctx} {w : Wid} {addrs : List Addr} {own' : Own} {G : Block} {fl : Nat} {x x' : ISt}
+
+/-- the floor is set at the first removal step: the tip height -/
+theorem phase2F_of_phase2 (h : Phase2 c w addrs own' G x) : Phase2F c w addrs own' G (x.node.chain.length - 1) x := by
+  obtain ⟨g, k, hG, hSub, hM, hcf⟩ := h
+  have := hG.len
+  exact ⟨g, k, by omega, by omega, hG, hSub, hM, hcf⟩
+
+theorem phase2F_recv {t : Tx} (hP : Phase2F c w addrs own' G fl x) (h : istep limit c w addrs x (.recv t) = some x') :
+    Phase2F c w addrs own' G fl x' := by
+  obtain ⟨g, k, hkfl, hfl, hG, hSub, hM, hcf⟩ := hP
+  have hx := istep_recv h
+  have m := minedEq_recvTx { c with node := x.node } x.s x.v t
+  subst hx
+  refine ⟨g, k, hkfl, hfl, hG, ?_, ?_, ⟨?_, hcf.fin, hcf.good, hcf.valid, hcf.genesis, hcf.known⟩⟩
+  · refine ⟨m.unspent.trans hSub.unspent, m.game.trans hSub.game, m.balance.trans hSub.balance,
+      m.sync.trans hSub.sync, m.syncedTo.trans hSub.syncedTo, m.status.trans hSub.status, m.addrs.trans hSub.addrs,
+      ?_, ?_, ?_⟩
+    · intro key; show AMap.get (recvTx _ x.s x.v t).1.credits key = _ ∨ (AMap.get (recvTx _ x.s x.v t).1.credits key = none ∧ _)
+      rw [m.credits]; exact hSub.credits key
+    · intro key; show AMap.get (recvTx _ x.s x.v t).1.debits key = _ ∨ AMap.get (recvTx _ x.s x.v t).1.debits key = none
+      rw [m.debits]; exact hSub.debits key
+    · intro key; show AMap.get (recvTx _ x.s x.v t).1.txrecs key = _ ∨ AMap.get (recvTx _ x.s x.v t).1.txrecs key = none
+      rw [m.txrecs]; exact hSub.txrecs key
+  · exact midC_congr hM m.credits m.debits m.unspent m.game m.txrecs m.blocks m.balance m.sync m.syncedTo m.status
+  · show (recvTx _ x.s x.v t).2.1.best = _
+    rw [recvTx_best]; exact hcf.best
+
+theorem phase2F_restart {v : Vol} (hv : v.best = x.v.best) (hP : Phase2F c w addrs own' G fl x)
+    (h : istep limit c w addrs x (.restart v) = some x') : Phase2F c w addrs own' G fl x' := by
+  rw [istep_restart h]
+  obtain ⟨g, k, hkfl, hfl, hG, hSub, hM, hcf⟩ := hP
+  exact ⟨g, k, hkfl, hfl, hG, hSub, hM, ⟨hv.trans hcf.best, hcf.fin, hcf.good, hcf.valid, hcf.genesis, hcf.known⟩⟩
+
+theorem phase2F_rem (hS : Static c w addrs own') (hP : Phase2F c w addrs own' G fl x)
+    (hp : PendOK addrs x.s x.node.chain) (h : istep limit c w addrs x .rem = some x') :
+    (x'.fin = false → Phase2F c w addrs own' G fl x') ∧
+    (x'.fin = true → ∀ ws', (∀ y ∈ ws', y ∈ c.wallets) →
+      Inv { c with own := own', wallets := ws', node := x'.node } x'.s x'.node.chain) := by
+  obtain ⟨g, k, hkfl, hfl, hG, hSub, hM, hcf⟩ := hP
+  obtain ⟨_, o, ho, rfl⟩ := istep_rem h
+  have H := remHyp_of hS hcf
+  have HU := upperOK_join H hS.keys hG.len
+  have hMU := midU_of_midC hM hp
+  constructor
+  · intro hf
+    have hf' : o.finish = false := hf
+    have hM' := parked_step_U limit H HU hMU ho hf'
+    have hr := removeStep_parked ho hf'
+    exact ⟨g, k, hkfl, hfl, hG, subG_step hS.ne hSub hMU.nodup hr, midC_of_midU hM',
+      ⟨hcf.best, hf', hcf.good, hcf.valid, hcf.genesis, hcf.known⟩⟩
+  · intro hf ws' hws
+    have hf' : o.finish = true := hf
+    exact finish_projects_U limit H HU hMU ws' hws ho hf'
+
+/-- **a reorganisation between two removal steps that forks above the floor** (or an extension): the announced chain
+    agrees with the stored one up to the floor, so only blocks connected after the first removal step are rolled back -/
+theorem phase2_notify_reorg {n : Node} {b : Block} (hS : Static c w addrs own') (hP : Phase2F c w addrs own' G fl x)
+    (hN : NodeOK c.own G x.node.known n b) (hinj : IdInj (x.node.chain ++ n.chain))
+    (hagree : x.node.chain.take (fl + 1) = n.chain.take (fl + 1))
+    (hg0 : b.height = 0 → b.prev ≠ x.v.best.hash) :
+    ∃ x', istep limit c w addrs x (.notify n b) = some x' ∧ Phase2F c w addrs own' G fl x' := by
+  obtain ⟨g, k, hkfl, hfl, hG, hSub, hM, hcf⟩ := hP
+  have hS' : Static { c with node := n } w addrs own' := ⟨hS.minus, hS.managed, hS.ne, hS.keys⟩
+  have hknX : ∀ y ∈ x.node.chain, AMap.get n.known y.id = some y := fun y hy => hN.grows _ _ (hcf.known y hy)
+  -- the tip of the announced chain
+  have hne : n.chain ≠ [] := hN.good.nonempty
+  have hlen : n.chain.length ≠ 0 := fun h => hne (List.eq_nil_of_length_eq_zero h)
+  have hlast : n.chain[n.chain.length - 1]? = some b := by rw [← List.getLast?_eq_getElem?]; exact hN.tip
+  have hbh : b.height = n.chain.length - 1 := hN.good.heights _ _ hlast
+  have hb : n.chain[b.height]? = some b := by rw [hbh]; exact hlast
+  have htake : n.chain.take (b.height + 1) = n.chain := List.take_of_length_le (by omega)
+  have hfln : fl < n.chain.length := by
+    have := congrArg List.length hagree
+    rw [List.length_take, List.length_take] at this
+    omega
+  -- the store-level invariant, for the context with the announced node
+  have hI : P2F { c with node := n } w addrs own' fl x.s x.node.chain :=
+    ⟨g, k, hkfl, hfl,
+      ⟨scanJS_ctx (c := { c with node := x.node }) rfl rfl rfl hG.scan, hG.flag, hG.allReady, hG.nonempty, hG.nodup⟩,
+      sub_of_subG hSub, midU_ctx (c := { c with node := x.node }) rfl rfl rfl hM⟩
+  have HF : RIfaceF { c with node := n } x.node.chain fl (P2F { c with node := n } w addrs own' fl) (fun _ => True) :=
+    ⟨hN.good, hcf.good, hinj, hfl, hagree,
+      fun {s n' j y} hI hj hy => by
+        obtain ⟨_, _, _, _, _, _, hM⟩ := hI
+        have := hM.sync j
+        rw [show AMap.get s.sync j = _ from this, syncOf, getElem?_take_of_lt hj, hy]; rfl,
+      fun {s j} hflj hjl hI _ => by
+        have hx : x.node.chain[j]? = some x.node.chain[j] := List.getElem?_eq_getElem hjl
+        have e := take_succ_of_get hx
+        have hjh : (x.node.chain[j]).height = j := hcf.good.heights _ _ hx
+        rw [e] at hI
+        have hV : ChainValid c.own (x.node.chain.take j ++ [x.node.chain[j]]) := by
+          rw [← e]; exact chainValid_take hcf.valid _
+        have hH : HeightsOK (x.node.chain.take j ++ [x.node.chain[j]]) := by
+          rw [← e]; exact heightsOK_take hcf.good.heights _
+        have hkn : ∀ y ∈ x.node.chain.take j ++ [x.node.chain[j]], AMap.get n.known y.id = some y := by
+          rw [← e]; exact fun y hy => hknX y (List.mem_of_mem_take hy)
+        have hlj : fl < (x.node.chain.take j).length := by rw [List.length_take]; omega
+        obtain ⟨s', h1, h2⟩ := p2f_disc (c := { c with node := n }) hS' hV hH hkn hlj hI
+        rw [hjh] at h1
+        exact ⟨s', h1, h2, trivial⟩⟩
+  obtain ⟨s', v', hpb, hI', _, hv', _⟩ := processBlock_reachesIF HF
+    (p2f_connSpec (c := { c with node := n }) hS' hN.good hN.valid hN.known) hI hb (by omega) hcf.best
+    (by rw [← hcf.best]; exact hg0) trivial
+    (by
+      intro j hX hj
+      have hb' : n.chain[j + 1]? = some b := by rw [← hj]; exact hb
+      have hI0 := hI
+      rw [hX] at hI0
+      obtain ⟨s', conf, hfb, hI', _⟩ := p2f_connect (c := { c with node := n }) hS' hN.good hN.valid hN.known hb' hI0
+      exact ⟨s', conf, hfb, hI', trivial⟩)
+  rw [htake] at hI' hv'
+  obtain ⟨g', k', hk'fl, hfl', hG', hSub', hM'⟩ := hI'
+  refine ⟨{ x with s := s', v := v', node := n }, ?_, g', k', hk'fl, hfl',
+    ⟨by show k' + 1 ≤ n.chain.length; omega, hG'.scan, hG'.flag, hG'.allReady, hG'.nonempty, hG'.nodup⟩,
+    subG_of_sub hSub', hM', ⟨hv', hcf.fin, hN.good, hN.valid, hN.genesis, hN.known⟩⟩
+  simp only [istep, hcf.fin, hpb, Bool.false_eq_true, if_false, if_true]
+
+end events
+
 end MW.Lemmas.RemoveInterleave
